@@ -75,7 +75,14 @@ def concretise(case, pres):
             r = rot % len(names)
             names = names[r:] + names[:r]
         L[vals[i]] = names
-    S0 = [vals[i] for i in pres.get('S0', [])]
+    # the initial states belong to the structure, not to its presentation:
+    # they come from the case (mapped through the bijection), and only their
+    # order and container type vary
+    s0 = list(case.get('S0') or [])
+    if pres.get('S0rot') and s0:
+        r0 = pres['S0rot'] % len(s0)
+        s0 = s0[r0:] + s0[:r0]
+    S0 = [vals[i] for i in s0]
     # the same collections in other container types (the constructor takes
     # "a collection"): tuple, set, frozenset, dict keys, one-shot iterator
     ct = pres.get('ctype') or {}
@@ -170,7 +177,9 @@ def gen_case(rng, cfg):
         F = gen.gen_fairness(rng, K['n'])
         if cfg['uniform_loops']:
             K['E'] = gen.uniformise_selfloops(rng, K['n'], K['E'])
-    return {'K': K, 'logic': logic, 'f': f, 'F': F}
+    S0 = sorted(rng.sample(range(K['n']), rng.randint(0, K['n']))) \
+        if rng.random() < 0.4 else []
+    return {'K': K, 'logic': logic, 'f': f, 'F': F, 'S0': S0}
 
 
 def gen_presentation(rng, case, cfg):
@@ -208,14 +217,7 @@ def gen_presentation(rng, case, cfg):
         rng.shuffle(R)
         rng.shuffle(Lo)
         pres['lab_rot'] = rng.randrange(3)
-        if rng.random() < 0.2:
-            pres['S_given'] = False
-        if rng.random() < 0.2 and R:
-            R = R + [rng.choice(R)]
-        if rng.random() < 0.3:
-            # unlabelled states may be left out of L altogether
-            labs = [list(l) for l in K['lab']] + (pad['lab'] if pad else [])
-            Lo = [i for i in Lo if labs[i] or rng.random() < 0.5]
+        pres['S0rot'] = rng.randrange(4)
     pres['S'], pres['R'], pres['L'] = S, R, Lo
     if 'ctype' in kinds and rng.random() < 0.5:
         pres['ctype'] = {
@@ -227,8 +229,6 @@ def gen_presentation(rng, case, cfg):
             'lab': rng.choice(['list', 'tuple', 'set', 'frozenset'])}
     if 'bijection' in kinds and rng.random() < 0.4:
         pres['fresh'] = True
-    if 'S0' in kinds and rng.random() < 0.3:
-        pres['S0'] = sorted(rng.sample(range(tot), rng.randint(0, tot)))
     if 'atoms' in kinds and rng.random() < 0.6:
         atoms = gen.ATOM_POOL[:cfg['natoms']]
         pres['amap'] = gen.rename_map(rng, atoms)
@@ -243,7 +243,7 @@ def gen_plan(seed, logic_mix):
     rng = random.Random(seed)
     logic = logic_mix[rng.randrange(len(logic_mix))]
     kinds = ['schedule']
-    for k in ['bijection', 'order', 'atoms', 'pad', 'S0', 'ctype']:
+    for k in ['bijection', 'order', 'atoms', 'pad', 'ctype']:
         if rng.random() < 0.6:
             kinds.append(k)
     fair = logic != 'LTL' and rng.random() < 0.25
